@@ -36,6 +36,9 @@ def jobs_for(tier):
     for path in sorted(glob.glob(os.path.join(config.SPEC, 'WorkersOC_%s_*.cfg' % t))):
         jobs.append(('WorkersOC', os.path.basename(path)[:-4], None))
     jobs.append(('WorkersOC', 'WorkersOC_sab', 'Exact'))
+    for path in sorted(glob.glob(os.path.join(config.SPEC, 'WorkersSuffix_%s_*.cfg' % t))):
+        jobs.append(('WorkersSuffix', os.path.basename(path)[:-4], None))
+    jobs.append(('WorkersSuffix', 'WorkersSuffix_sab', 'Safe'))
     jobs.append(('Projection', 'Projection_%s' % t, None))
     jobs.append(('Projection', 'Projection_sab', 'CellsRight'))
     jobs.append(('Matcher', 'Matcher_%s' % t, None))
